@@ -19,6 +19,20 @@ def main():
             out["dec"][x] = ["err"]
         except Exception as e:  # noqa
             out["dec"][x] = ["exc", type(e).__name__]
+    for x in q.get("decode_compatible", []):
+        try:
+            out.setdefault("dec_compat", {})[x] = ["ok", sf.decoder(x, compatible=True)]
+        except sf.DecoderError:
+            out.setdefault("dec_compat", {})[x] = ["err"]
+        except Exception as e:  # noqa
+            out.setdefault("dec_compat", {})[x] = ["exc", type(e).__name__]
+    for s in q.get("encode_strict", []):
+        try:
+            out.setdefault("enc_strict", {})[s] = ["ok", sf.encoder(s, strict=True)]
+        except sf.EncoderError:
+            out.setdefault("enc_strict", {})[s] = ["err"]
+        except Exception as e:  # noqa
+            out.setdefault("enc_strict", {})[s] = ["exc", type(e).__name__]
     for s in q.get("encode", []):
         try:
             out["enc"][s] = ["ok", sf.encoder(s, strict=False)]
